@@ -60,7 +60,15 @@ class ProjectResultRegistry(ProjectRegistry):
         list[Path]
             Paths to previous results with name ``base_name``.
         """
-        return sorted(self.directory.glob(f"{base_name}_run_*"))
+        run_name_pattern = re.compile(rf"{re.escape(base_name)}_run_\d+")
+        return sorted(
+            (
+                path
+                for path in self.directory.glob(f"{base_name}_run_*")
+                if run_name_pattern.fullmatch(path.name) is not None
+            ),
+            key=lambda path: int(path.name.rpartition("_run_")[2]),
+        )
 
     def _latest_result_path_fallback(self, name: str, *, latest: bool = False) -> Path:
         """Fallback when a user forgets to specify the run to get a result.
@@ -97,7 +105,7 @@ class ProjectResultRegistry(ProjectRegistry):
                     stacklevel=3,
                 )
             previous_result_paths = self.previous_result_paths(name) or [Path(name)]
-            name = previous_result_paths[-1].stem
+            name = previous_result_paths[-1].name
         path = self._directory / name
         if self.is_item(path):
             return path
@@ -122,7 +130,7 @@ class ProjectResultRegistry(ProjectRegistry):
         previous_results = self.previous_result_paths(base_name)
         if not previous_results:
             return f"{base_name}_run_0000"
-        latest_result_run_nr = int(previous_results[-1].stem.replace(f"{base_name}_run_", ""))
+        latest_result_run_nr = int(previous_results[-1].name.rpartition("_run_")[2])
         return f"{base_name}_run_{latest_result_run_nr+1:04}"
 
     def save(self, name: str, result: Result):
